@@ -376,17 +376,17 @@ UNITS = [
       native=None, timeout=1800, object_bits=6, stubs=["lrtr_ip_addr_get_bits", "lrtr_ip_addr_is_zero", "lrtr_ip_addr_equal"]),
     # ------------------------------------------------------------------ element arrays (C02, C01, C18)
     U(id="find_elem", props=["C02"], file="units/elems.c", entry="h_find_elem", defines=["H_ENTRY=h_find_elem"], enforce=["pfx_table_find_elem"],
-      loops=[FIND_LOOP], kind="unbounded", need_classes=["postcondition", "loop_invariant_step"], native=None, stubs=["lrtr_realloc", "lrtr_free"]),
+      loops=[FIND_LOOP], kind="unbounded", need_classes=["postcondition", "loop_invariant_step"], native={"only": ["rtrlib/pfx/trie/trie.c", "rtrlib/lib/ip.c", "rtrlib/lib/ipv4.c", "rtrlib/lib/ipv6.c", "rtrlib/lib/utils.c", "rtrlib/lib/convert_byte_order.c"], "libs": ["-lpthread", "-lrt"]}, stubs=["lrtr_realloc", "lrtr_free"]),
     U(id="elem_nomatch", props=["C01"], file="units/elems.c", entry="h_elem_nomatch", defines=["H_ENTRY=h_elem_nomatch"], enforce=["pfx_table_elem_matches"],
-      loops=[MATCH_LOOP], kind="unbounded", need_classes=["postcondition", "loop_invariant_step"], native=None, stubs=["lrtr_realloc", "lrtr_free"]),
+      loops=[MATCH_LOOP], kind="unbounded", need_classes=["postcondition", "loop_invariant_step"], native={"only": ["rtrlib/pfx/trie/trie.c", "rtrlib/lib/ip.c", "rtrlib/lib/ipv4.c", "rtrlib/lib/ipv6.c", "rtrlib/lib/utils.c", "rtrlib/lib/convert_byte_order.c"], "libs": ["-lpthread", "-lrt"]}, stubs=["lrtr_realloc", "lrtr_free"]),
     U(id="elem_match", props=["C01"], file="units/elems.c", entry="h_elem_match", defines=["H_ENTRY=h_elem_match"], enforce=[], plain=True,
       checked_by_assertions=["pfx_table_elem_matches"], need_classes=["assertion"], kind="bounded: at most 4 records per prefix", bound=6,
       cbmc_flags=["--sat-solver", "cadical"],
-      native=None, allow_undefined=True, stubs=["lrtr_realloc", "lrtr_free"]),
+      native={"only": ["rtrlib/pfx/trie/trie.c", "rtrlib/lib/ip.c", "rtrlib/lib/ipv4.c", "rtrlib/lib/ipv6.c", "rtrlib/lib/utils.c", "rtrlib/lib/convert_byte_order.c"], "libs": ["-lpthread", "-lrt"]}, allow_undefined=True, stubs=["lrtr_realloc", "lrtr_free"]),
     U(id="del_elem", props=["C02", "C18"], file="units/elems.c", entry="h_del_elem", defines=["H_ENTRY=h_del_elem"], enforce=["pfx_table_del_elem"],
-      loops=[DEL_LOOP], kind="unbounded", need_classes=["postcondition", "loop_invariant_step"], native=None, stubs=["lrtr_realloc", "lrtr_free"]),
+      loops=[DEL_LOOP], kind="unbounded", need_classes=["postcondition", "loop_invariant_step"], native={"only": ["rtrlib/pfx/trie/trie.c", "rtrlib/lib/ip.c", "rtrlib/lib/ipv4.c", "rtrlib/lib/ipv6.c", "rtrlib/lib/utils.c", "rtrlib/lib/convert_byte_order.c"], "libs": ["-lpthread", "-lrt"]}, stubs=["lrtr_realloc", "lrtr_free"]),
     U(id="append_elem", props=["C02", "C18"], file="units/elems.c", entry="h_append_elem", defines=["H_ENTRY=h_append_elem"], enforce=["pfx_table_append_elem"],
-      kind="complete", native=None, stubs=["lrtr_realloc", "lrtr_free"]),
+      kind="complete", native={"only": ["rtrlib/pfx/trie/trie.c", "rtrlib/lib/ip.c", "rtrlib/lib/ipv4.c", "rtrlib/lib/ipv6.c", "rtrlib/lib/utils.c", "rtrlib/lib/convert_byte_order.c"], "libs": ["-lpthread", "-lrt"]}, stubs=["lrtr_realloc", "lrtr_free"]),
     # ------------------------------------------------------------------ state machine (C05, C07, C13)
     U(id="fsm", props=["C05", "C07", "C13"], file="units/fsm.c", entry="h_fsm", enforce=["rtr_fsm_start"],
       loops=[FSM_LOOP], kind="unbounded", need_classes=["loop_invariant_base", "loop_invariant_step", "assertion"], native=None,
